@@ -132,7 +132,7 @@ def check(run):
     run.floor('C15-R3', 60, 'obligations')
     run.floor('C15-R4', 12, 'obligations')
     from ..cachekey import check_caches
-    check_caches(run, [m for k, m in prog.modules.items() if k.startswith('cherab.tools.observers')], 'C15-K')
+    check_caches(run, [m for k, m in prog.modules.items() if k.startswith('cherab.tools.observers')], 'C15-K', prog=prog)
 
 
 def _key(ci, fn, what):
